@@ -1,0 +1,12 @@
+//go:build verif
+
+// Contracts for package macro, checked by /verif/govc (comment-only file; no code).
+package macro
+
+//@ func NewMacro props C15,C09,C07
+//@   ensures isnil(result1) ==> !isnil(result0) && typeof(result0) == tag("*macro")
+//@   ensures len(data) == 0 ==> !isnil(result1)
+//@   ensures !isnil(result1) ==> isnil(result0)
+
+//@ func isValidMacroChar props C09
+//@   ensures result <==> (c == '[' || c == ']' || c == '.' || c == '_' || c == '-' || (c >= '0' && c <= '9') || (c >= 'A' && c <= 'Z') || (c >= 'a' && c <= 'z'))
